@@ -204,6 +204,11 @@ thread_local! {
     static IN_GUEST: Cell<bool> = const { Cell::new(false) };
 }
 
+/// Set the clock seen by `Clock::get()` (both flavours) without running an instruction (function-level checks).
+pub fn set_clock(unix_ts: i64, epoch: u64) {
+    init();
+    CLOCK.with(|c| c.set((unix_ts, epoch)));
+}
 pub fn set_capture_logs(on: bool) {
     CAPTURE_LOGS.with(|c| c.set(on));
 }
